@@ -6,6 +6,9 @@
 From Grex Require Import Base.Str Model.Config Model.Cluster Model.Dfa Model.Expr Model.Pipeline.
 From Grex Require Import Proofs.Lang Proofs.Spec Proofs.ClustersSpec Proofs.EngineDen
   Proofs.QuotientLang Proofs.PropsGlue.
+From Grex Require Import Engine.Syntax Engine.Parse Engine.Sem.
+From Grex Require Import Proofs.PrintParseNum Proofs.PrintParseDefs Proofs.PrintParseXTok
+  Proofs.PropsGlueE2E.
 
 (* the language is exactly the set of test cases (K4: the empty test case next to a non-empty
    one may be lost; nothing is ever added) *)
@@ -42,6 +45,44 @@ Theorem C02_minimal_deterministic : forall c db ws t d',
         (forall w, Lw_from d' i w <-> Lw_from d' j w) -> i = j).
 Proof. exact minimal_deterministic_default. Qed.
 
+(* END TO END, at the string level (notions: Props/C01.v (f)): with the default settings the
+   string returned by build is accepted by the model of the regex crate's parser, without the
+   i flag, and the parsed pattern matches, among the haystacks of Unicode scalar values,
+   exactly the test cases (K4: the empty one may be lost).  No no_merge hypothesis.
+   (Haystacks of the regex crate are strings, i.e. sequences of scalar values; the restriction
+   is needed because a class that contains both U+D7FF and U+E000 prints as a range.) *)
+Theorem C02_build_exact : forall (cls : cp -> cp -> Prop) isd is_ws c db sc ws s,
+  f_digit c = false /\ f_non_digit c = false /\ f_space c = false /\
+  f_non_space c = false /\ f_word c = false /\ f_non_word c = false ->
+  f_ci c = false -> f_rep c = false ->
+  ws <> [] ->
+  Forall (Forall scalar) ws ->
+  oracle_ok db (normalise c db ws) ->
+  printable c -> f_verbose c = false -> ws_ok is_ws ->
+  build isd c db sc ws = Some s ->
+  exists fl r, parse is_ws s = Some (fl, r) /\ fl_i fl = false /\ fl_x fl = false
+    /\ (forall u, Forall scalar u -> (u <> [] \/ K4 (normalise c db ws) = false) ->
+          (L_rast lit_cs cls r u <-> In u ws))
+    /\ (L_rast lit_cs cls r [] -> In [] ws).
+Proof. exact build_exact_default_nv. Qed.
+
+Theorem C02_build_exact_verbose : forall (cls : cp -> cp -> Prop) isd is_ws c db sc ws s,
+  f_digit c = false /\ f_non_digit c = false /\ f_space c = false /\
+  f_non_space c = false /\ f_word c = false /\ f_non_word c = false ->
+  f_ci c = false -> f_rep c = false ->
+  ws <> [] ->
+  Forall (Forall scalar) ws ->
+  oracle_ok db (normalise c db ws) ->
+  printable c -> f_verbose c = true -> ws_x is_ws ->
+  build isd c db sc ws = Some s ->
+  exists fl r, parse is_ws s = Some (fl, r) /\ fl_i fl = false /\ fl_x fl = true
+    /\ (forall u, Forall scalar u -> (u <> [] \/ K4 (normalise c db ws) = false) ->
+          (L_rast lit_cs cls r u <-> In u ws))
+    /\ (L_rast lit_cs cls r [] -> In [] ws).
+Proof. exact build_exact_default_v. Qed.
+
 Print Assumptions C02_exact.
 Print Assumptions C02_spec_plain.
 Print Assumptions C02_minimal_deterministic.
+Print Assumptions C02_build_exact.
+Print Assumptions C02_build_exact_verbose.
